@@ -16,7 +16,7 @@ fn typ_code(c: &IceCandidate) -> u64 {
 
 pub fn run_cand(run: &mut Run, s: &str, nt: bool) {
     let t = s.to_string();
-    exec(run, "cand", &hex(s.as_bytes()), "IceCandidate::from_sdp", nt, Some((40, 1024, s.len() as u64)), move || match IceCandidate::from_sdp(&t) {
+    exec(run, "cand", &hex(s.as_bytes()), "IceCandidate::from_sdp", nt, None, move || { let r = IceCandidate::from_sdp(&t); super::mark_alloc(); match r {
         Ok(c) => {
             let _ = c.to_sdp();                                     // re-serialising must be total
             let tt = match c.tcp_type { None => 0, Some(x) => match format!("{x:?}").as_str() { "Active" => 1, "Passive" => 2, _ => 3 } };
@@ -24,7 +24,7 @@ pub fn run_cand(run: &mut Run, s: &str, nt: bool) {
                 c.related_address.map_or(0, |a| a.port() as u64 + 1))
         }
         Err(_) => "err e".into(),
-    });
+    } });
 }
 
 fn gen_cand(rng: &mut Rng) -> String {
